@@ -142,11 +142,10 @@ func (e *Exec) topReturn(s *State, f *Frame, res []Value, in *ssa.Return) {
 	if e.con.HasModifies {
 		e.frameCheck(s, env)
 	}
-	if !e.retProbed[in] {
-		if e.retProbed == nil {
-			e.retProbed = map[*ssa.Return]bool{}
-		}
-		e.retProbed[in] = true
+	// vacuity probes: one per returning path (at most 64); they are solved one after the other until a
+	// reachable return is found
+	if e.retProbes < 64 {
+		e.retProbes++
 		e.emitProbe(s, fmt.Sprintf("reach.ret.%d", rn))
 	}
 }
@@ -218,10 +217,15 @@ func (ev *astEnv) modLoc(x ast.Expr) []modLoc {
 	switch t.Underlying().(type) {
 	case *types.Slice:
 		sv := ev.eval(x).(*SliceV)
-		if sv.Base == nil {
-			return nil
+		var out []modLoc
+		if _, isField := x.(*ast.SelectorExpr); isField {
+			// a slice-typed field: the header (base/len/cap) may change, and so may the contents
+			out = append(out, modLoc{ref: ev.ref(x)})
 		}
-		return []modLoc{{ref: sv.Base, ranged: true, lo: sv.Off, hi: c.Add(sv.Off, sv.Len)}}
+		if sv.Base != nil {
+			out = append(out, modLoc{ref: sv.Base, ranged: true, lo: sv.Off, hi: c.Add(sv.Off, sv.Cap)})
+		}
+		return out
 	}
 	if st, ok := x.(*ast.StarExpr); ok {
 		pv := ev.eval(st.X).(*PtrV)
